@@ -416,9 +416,9 @@ mod u16h {
     }
 
     // subrange_eq (backreferences) on u16 input
-    // @verif props=C14,C06 tier=quick builds=utf16 sub=u16h timeout=1800 unwind=8 bound="any 4 u16 code units; captured range i..j and position k anywhere; both directions" funcs="Utf16Input::subrange_eq,subinput"
+    // @verif props=C14,C06 tier=quick builds=utf16 sub=u16h timeout=1800 unwind=12 bound="any 4 u16 code units; captured range i..j and position k anywhere; both directions" funcs="Utf16Input::subrange_eq,subinput"
     #[kani::proof]
-    #[kani::unwind(8)]
+    #[kani::unwind(12)]
     fn c14_utf16_subrange_eq() {
         let data: [u16; 4] = kani::any();
         let input = Utf16Input::new(&data, false);
